@@ -45,6 +45,8 @@ CATALOGUE = [
     ('sc', '.byte', ['1', "';'", '4'], False),          # a semicolon inside a character literal / string is not a comment
     ('ms', '.cstr', ['"a;b"'], False),
     (None, '.byte', ['"x;y"'], False),
+    ('pth', '.cstr', ['"C:\\\\"'], False),           # the string ends in an escaped backslash: C:\\ 
+    (None, '.byte', ['"q\\\\"'], False),
 ]
 HEADER = [('lab', None, [], False), (None, 'nop', [], True)]
 FOOTER = [('nop_x', 'nop', [], True)]
